@@ -36,7 +36,7 @@ Lemma tm_request_nil q r mt maxre s : C14refuse.tm_request [] q r mt maxre s = C
 Proof. reflexivity. Qed.
 
 Lemma crashed_nocrash o : crashed o = negb (nocrash o).
-Proof. unfold crashed, nocrash. induction o as [|x o IH]; [reflexivity|]. cbn [existsb forallb]. rewrite IH. destruct x; reflexivity. Qed.
+Proof. unfold crashed, nocrash. induction o as [|x o IH]; [reflexivity|]. cbn [existsb forallb]. rewrite IH. destruct x; try reflexivity. destruct e; reflexivity. Qed.
 
 Lemma dispatch_message_nil r mt code mid tok s : Inv s ->
   C14refuse.dispatch_message [] r mt code mid tok s = C14.dispatch_message r mt code mid tok s.
@@ -72,8 +72,9 @@ Proof. induction es as [|e es IH]; intros s HI Hq; [split; reflexivity|].
 
 (* ================================================================ arbitrary refusals *)
 Lemma dispatch_error_no_subm r s r' : subm r' (snd (dispatch_error r s)) = [].
-Proof. unfold dispatch_error, tm_dispatch_error. cbn [fst snd]. rewrite subm_app, subm_dropped, app_nil_r.
-  destruct (neutral_logs r' _ (neutral_fail_map NetworkError (filter (fun o => remote_of o =? r) (outgoing_requests s)))) as (N1 & _). exact N1. Qed.
+Proof. unfold dispatch_error. destruct (tm_dispatch_error_frame NetworkError r s) as (_ & _ & Hn).
+  destruct (tm_dispatch_error NetworkError r s) as [s1 o1]. cbn [fst snd] in *. rewrite subm_app, subm_dropped, app_nil_r.
+  destruct (neutral_logs r' _ Hn) as (N1 & _). exact N1. Qed.
 
 Lemma trans_silent_pre s s1 o s' : backlogs s1 = backlogs s -> Trans s1 o s' -> Trans s o s'.
 Proof. intros Hb T. apply (trans_pre_ext s1); [exact Hb|exact T]. Qed.
@@ -199,7 +200,7 @@ Lemma send_message_gen who r mt code tok maxre s : Inv s ->
   Trans s (snd (C14refuse.send_message l who r mt code tok maxre s)) (fst (C14refuse.send_message l who r mt code tok maxre s)).
 Proof. intros HI. unfold C14refuse.send_message, next_message_id.
   set (s0 := {| now := now s; seq := seq s; message_id := Z.land 65535 (1 + message_id s); token := token s; rand := rand s;
-                active_exchanges := active_exchanges s; backlogs := backlogs s; outgoing_requests := outgoing_requests s |}).
+                active_exchanges := active_exchanges s; backlogs := backlogs s; outgoing_requests := outgoing_requests s; incoming_requests := incoming_requests s |}).
   set (m := {| m_sub := who; m_remote := r; m_mtype := resolve_mtype mt; m_code := code; m_mid := message_id s; m_tok := tok; m_maxre := maxre |}).
   assert (HI0 : Inv s0) by (apply (inv_ext s); [reflexivity|reflexivity|exact HI]).
   apply (trans_pre_ext s0); [reflexivity|].
@@ -285,7 +286,9 @@ Proof. intros HI. destruct e; cbn [step_ev].
   - apply (step_trans s (TransportError r)); exact HI.
   - apply fire_gen; exact HI.
   - apply (step_trans s (Advance d)); exact HI.
-  - apply (step_trans s (Cancel q)); exact HI. Qed.
+  - apply (step_trans s (Cancel q)); exact HI.
+  - apply (step_trans s (Serve k r tok mt)); exact HI.
+  - apply respond_trans; [intros; apply send_message_gen; assumption|exact HI]. Qed.
 End General.
 
 (* ---------------------------------------------------------------- all runs, whatever the transport refuses and when *)
@@ -319,16 +322,22 @@ Theorem general_fifo a b c es r :
   subm r (concat (snd (rrun (init a b c, []) es))) = left r (concat (snd (rrun (init a b c, []) es))) ++ backlog_of r (fst (fst (rrun (init a b c, []) es))).
 Proof. apply (rrun_inv_fifo es (init a b c) [] []); [apply inv_init|reflexivity|reflexivity]. Qed.
 
-Theorem general_nocrash a b c es e : ~ In (Crash e) (concat (snd (rrun (init a b c, []) es))).
-Proof. intros H. assert (N : nocrash (concat (snd (rrun (init a b c, []) es))) = true) by (apply (rrun_inv_fifo es (init a b c) [] []); [apply inv_init|reflexivity|reflexivity]).
-  unfold nocrash in N. rewrite forallb_forall in N. specialize (N _ H). discriminate. Qed.
+Theorem general_nocrash a b c es e : e <> TypeError -> ~ In (Crash e) (concat (snd (rrun (init a b c, []) es))).
+Proof. intros He H. assert (N : nocrash (concat (snd (rrun (init a b c, []) es))) = true) by (apply (rrun_inv_fifo es (init a b c) [] []); [apply inv_init|reflexivity|reflexivity]).
+  exact (nocrash_in _ e N He H). Qed.
 
 Theorem general_step l s e : Inv s ->
   let s' := fst (step_ev l s e) in let o := snd (step_ev l s e) in
-  Inv s' /\ (forall r, backlog_of r s ++ subm r o = left r o ++ backlog_of r s') /\ (forall x, ~ In (Crash x) o).
+  Inv s' /\ (forall r, backlog_of r s ++ subm r o = left r o ++ backlog_of r s') /\ (forall x, x <> TypeError -> ~ In (Crash x) o).
 Proof. intros HI. destruct (step_ev_trans l s e HI) as (A & B & C). split; [exact A|]. split; [exact B|].
-  intros x H. unfold nocrash in C. rewrite forallb_forall in C. specialize (C _ H). discriminate. Qed.
+  intros x Hx. exact (nocrash_in _ x C Hx). Qed.
 
 Theorem refusal_is_transport_error l what r s : refuses l r = true ->
   send_via_transport l what r s = (fst (step s (TransportError r)), refused_ghost what ++ snd (step s (TransportError r))).
 Proof. intros H. unfold send_via_transport. rewrite H. cbn [step]. destruct (dispatch_error r s); reflexivity. Qed.
+
+(* C14-R3 (open): a responder's non-last response (a notification) whose datagram the transport refuses — dispatch_error runs the
+   stoppers inside on_event, the pipe ends, and Pipe._add_event then evaluates _any_interest() on `False` *)
+Theorem pipe_typeerror_refuted :
+  In (Crash TypeError) (concat (snd (rrun (init 0 0 [], []) [Ev (Serve 1 0 7 0); Refuse 0 true; Ev (Respond 10 1 false 1)]))).
+Proof. vm_compute. auto 10. Qed.
